@@ -4,11 +4,13 @@
 the patched copy, and store everything under /verif/seeded/<Cxx>-<k>/."""
 import json, os, shutil, subprocess, sys, tempfile
 pid, k = sys.argv[1], sys.argv[2]
-extra = sys.argv[3:]
-src = f'/tmp/wt_{pid}/seeded/{k}'
+extra = [a for a in sys.argv[3:] if not a.startswith('--')]
+wave = next((a.split('=')[1] for a in sys.argv[3:] if a.startswith('--wave=')), '')
+tag = f'{pid}-{wave}-{k}' if wave else f'{pid}-{k}'
+src = f'/tmp/{wave or "wt"}_{pid}/seeded/{k}'
 if not os.path.isdir(src):
-    src = f'/verif/seeded/{pid}-{k}'
-dst = f'/verif/seeded/{pid}-{k}'
+    src = f'/verif/seeded/{tag}'
+dst = f'/verif/seeded/{tag}'
 work = tempfile.mkdtemp(prefix='simv_harvest.')
 def sh(cmd, **kw):
     return subprocess.run(cmd, shell=True, capture_output=True, text=True, **kw)
